@@ -54,6 +54,7 @@ fn main() {
             cache_size: cache,
             nkeys,
             vlens: default_vlens(page_size),
+            sel: None,
         };
         let mut rng = StdRng::seed_from_u64(rseed);
         let mut ex = Exec::new(cfg.clone());
